@@ -152,6 +152,52 @@ def changers_for(sig, shift=0):
     return out
 
 
+# ---------------------------------------------------------------- IntroduceParameter
+IP_SIGS = [("none", "", ["()"]), ("one", "a", ["(1)", "(a=1)"]), ("default", "a, b=2", ["(1)", "(1, 3)", "(1, b=4)"]),
+           ("star", "a, *args", ["(1)", "(1, 5, 6)"]), ("dstar", "a, **kw", ["(1)", "(1, z=7)"]), ("kwonly", "a, *, k=1", ["(1)", "(1, k=8)"]),
+           ("annotated", "a: int = 1", ["()", "(9)"])]
+IP_EXPRS = {"global": "G", "attr": "obj.attr", "module-attr": "xlib.V", "attr-chain": "obj.inner.deep", "param-attr": "a.real", "local": "loc",
+            "self-attr": "self.k", "builtin": "len"}
+IP_BODIES = {
+    "once": "    loc = 'loc'\n    print('f', {shown}, {e})\n",
+    "twice": "    loc = 'loc'\n    first = {e}\n    print('f', {shown}, first, {e})\n",
+    "in-lambda": "    loc = 'loc'\n    print('f', {shown}, (lambda: {e})())\n",
+    "in-nested-def": "    loc = 'loc'\n\n    def inner():\n        return {e}\n    print('f', {shown}, inner())\n",
+}
+IP_KINDS = ["function", "method", "decorated", "returns-annotation", "wrapped-header"]
+IP_NAMES = {"fresh": "np", "existing-parameter": "a", "existing-local": "loc"}
+
+
+def ip_project(kind, sig, ek, bk):
+    signame, sigtxt, calls = sig
+    e = IP_EXPRS[ek]
+    if ek == "param-attr" and not sigtxt:
+        return None
+    if ek == "self-attr" and kind != "method":
+        return None
+    names = [x.split(":")[0].split("=")[0].strip().lstrip("*") for x in sigtxt.split(",") if x.strip() and x.strip() != "*"]
+    shown = ", ".join(names) if names else "0"
+    body = IP_BODIES[bk].format(shown=shown, e=e)
+    head = "import xlib\n\nG = 'xd.G'\n\n\nclass Inner:\n    deep = 'Inner.deep'\n\n\nclass Obj:\n    attr = 'Obj.attr'\n    inner = Inner()\n\n\nobj = Obj()\n\n\ndef deco(fn):\n    return fn\n\n\n"
+    if kind == "method":
+        params = "self" + (", " + sigtxt if sigtxt else "")
+        src = head + "class K:\n    k = 'K.k'\n\n    def f(%s):\n%s\n\n" % (params, "".join("    " + l + "\n" for l in body.splitlines()))
+        callee = "K().f"
+    else:
+        if kind == "wrapped-header":
+            hdr = "def f(\n        %s\n):\n" % sigtxt.replace(", ", ",\n        ") if sigtxt else "def f(\n):\n"
+        elif kind == "returns-annotation":
+            hdr = "def f(%s) -> None:\n" % sigtxt
+        elif kind == "decorated":
+            hdr = "@deco\ndef f(%s):\n" % sigtxt
+        else:
+            hdr = "def f(%s):\n" % sigtxt
+        src = head + hdr + body + "\n\n"
+        callee = "f"
+    src += "".join("%s%s\n" % (callee, c) for c in calls)
+    return {"xlib.py": "V = 'xlib.V'\n", "xd.py": src}
+
+
 def parse_out(text):
     res = []
     for line in text.splitlines():
@@ -195,12 +241,72 @@ class C06(Check):
                             for c2 in range(len(shapes)):
                                 if c1 < c2:
                                     out.append({"sig": si, "kind": kind, "host": host, "calls": [c1, c2], "pairs": False})
+        for kind in IP_KINDS:
+            for si in range(len(IP_SIGS)):
+                for ek in IP_EXPRS:
+                    for bk in IP_BODIES:
+                        for nk in IP_NAMES:
+                            if ip_project(kind, IP_SIGS[si], ek, bk) is not None:
+                                out.append({"ip": [kind, si, ek, bk, nk]})
         return out
 
     def setup_worker(self):
         self.bench = Bench("c06")
 
+    def run_ip(self, case):
+        from rope.refactor.introduce_parameter import IntroduceParameter
+        res = {"n": 1, "nt": [], "out": {}, "mech": {"introduce-parameter": 1}, "fails": [], "refused": 0, "passfeat": []}
+        kind, si, ek, bk, nk = case["ip"]
+        files = ip_project(kind, IP_SIGS[si], ek, bk)
+        if compiles(files):
+            return {"harness": "generated project does not compile %r" % files}
+        base = run_project(files)
+        if any(v[1] for v in base.values()):
+            res["out"]["base-raises"] = 1
+            return res
+        src = files["xd.py"]
+        e = IP_EXPRS[ek]
+        body_at = src.index("def f")
+        anchor = {"twice": "first =", "in-nested-def": "def inner"}.get(bk, "print('f'")
+        off = src.index(e, src.index(anchor, body_at)) + len(e) - 1
+        feats = sorted(["changer:introduce-parameter", "ip-kind:" + kind, "ip-sig:" + IP_SIGS[si][0], "ip-expr:" + ek, "ip-body:" + bk, "ip-name:" + nk])
+        ctx = self.bench.open(files)
+        try:
+            status, payload = ctx.refactor(lambda p: IntroduceParameter(p, p.get_file("xd.py"), off).get_changes(IP_NAMES[nk]))
+            new = ctx.tree()
+        finally:
+            ctx.close()
+        detail = {"files": {"xd.py": src}, "offset": off, "expression": e, "new_parameter": IP_NAMES[nk]}
+
+        def fail(k, extra):
+            res["fails"].append({"kind": k, "features": feats, "size": len(src) // 40, "detail": dict(detail, **extra), "case": case})
+        if status == "refused":
+            res["refused"] = 1
+            res["out"]["refused"] = 1
+            return res
+        if status != "done":
+            fail(status if status != "internal" else "internal:" + str(payload).split(":")[0], {"message": str(payload)})
+            return res
+        if new == files:
+            res["out"]["no-op"] = 1
+            return res
+        res["nt"].append(h8([files, off, nk]))
+        bad = compiles(new)
+        if bad:
+            fail("syntax-error", {"result": new["xd.py"], "message": bad[1]})
+            return res
+        got = run_project(new, sorted(base))
+        if got != base:
+            fail("binding-differs", {"result": new["xd.py"], "before": base, "after": got})
+            return res
+        res["out"]["preserved"] = 1
+        if os.environ.get("MC_TRIAGE") == "1":
+            res["passfeat"].append(feats)
+        return res
+
     def run(self, case):
+        if "ip" in case:
+            return self.run_ip(case)
         triage = os.environ.get("MC_TRIAGE") == "1"
         res = {"n": 0, "nt": [], "out": {}, "mech": {}, "fails": [], "refused": 0, "passfeat": []}
         sig = SIGS[case["sig"]]
